@@ -7,6 +7,8 @@
 // reader ops  (kind: m = CMsgPackStringReader, s = CMsgPackStreamReader; pol = two letters mismatch,overflow in T|S)
 //   r <kind> <pol> int <u|s><bits> <hexdata> | nil | f32 | f64 | str | arr | map | bin | ts | type | skip | byte
 //   answers: OK <value> <consumed> | NOT <consumed> | ERR <cat>
+//   q <kind> <pol> <op,op,...> <hexdata>   a sequence of reads on one reader (int ops written int:<type>), answers joined by ';'
+//   p <kind> <pol> <op,op,...> <hexdata>   the same, and an exception is answered ERR <cat> <GetPosition() after the throw>
 // signed hex (shex): '-' or '+' followed by hex magnitude
 #include "common.h"
 #include <cmath>
@@ -89,14 +91,18 @@ static std::string do_read(R& r, const std::vector<std::string>& t) {
 
 // q <kind> <pol> <op,op,...> <hexdata>: a sequence of reads on one reader; int ops are written int:<type>
 template <class R>
-static std::string do_seq(R& r, const std::string& ops) {
+static std::string do_seq(R& r, const std::string& ops, bool errpos = false) {
 	std::string out;
 	for (auto& o : vh::split(ops, ',')) {
 		std::string op = o, ty;
 		if (auto p = o.find(':'); p != std::string::npos) { op = o.substr(0, p); ty = o.substr(p + 1); }
 		if (!out.empty()) out += ";";
 		try { out += do_read1(r, op, ty); }
-		catch (...) { out += "ERR " + cat_of_current_exception(); break; }
+		catch (...) {
+			out += "ERR " + cat_of_current_exception();
+			if (errpos) out += " " + std::to_string(r.GetPosition());      // where the reader stands after the throw
+			break;
+		}
 	}
 	return out;
 }
@@ -142,13 +148,14 @@ int main() {
 				else { std::ostringstream os; { CMsgPackStreamWriter w(os); do_write(w, t); } out = os.str(); }
 				std::cout << vh::fmt_hex(out) << "\n";
 			}
-			else if (t.at(0) == "q") {
+			else if (t.at(0) == "q" || t.at(0) == "p") {
+				const bool errpos = t.at(0) == "p";
 				SerializationOptions opt;
 				opt.mismatchedTypesPolicy = t.at(2).at(0) == 'T' ? MismatchedTypesPolicy::ThrowError : MismatchedTypesPolicy::Skip;
 				opt.overflowNumberPolicy = t.at(2).at(1) == 'T' ? OverflowNumberPolicy::ThrowError : OverflowNumberPolicy::Skip;
 				std::string data = vh::parse_hex(t.back());
-				if (t.at(1) == "m") { CMsgPackStringReader r(data, opt); std::cout << do_seq(r, t.at(3)) << "\n"; }
-				else { std::istringstream is(data); CMsgPackStreamReader r(is, opt); std::cout << do_seq(r, t.at(3)) << "\n"; }
+				if (t.at(1) == "m") { CMsgPackStringReader r(data, opt); std::cout << do_seq(r, t.at(3), errpos) << "\n"; }
+				else { std::istringstream is(data); CMsgPackStreamReader r(is, opt); std::cout << do_seq(r, t.at(3), errpos) << "\n"; }
 			}
 			else if (t.at(0) == "r") {
 				SerializationOptions opt;
